@@ -15,11 +15,11 @@ import (
 // elements of containers, constants, entry-point parameters.
 
 type tracer struct {
-	e     *Engine
-	depth int
-	seen  map[string]bool
-	out   map[string]bool
-	facts []Cond // branch facts assumed by the phi edges taken so far (within one function)
+	e      *Engine
+	depth  int
+	seen   map[string]bool
+	out    map[string]bool
+	facts  []Cond // branch facts assumed by the phi edges taken so far (within one function)
 	factFn *ssa.Function
 }
 
